@@ -998,7 +998,7 @@ class Pass2(CompilePass):
 
     def process_input_pre(self, node):
         for lvalue in node.var_list:
-            if not lvalue.type.is_builtin:
+            if not lvalue.type.is_builtin or lvalue.type.is_array:
                 raise CompileError(
                     EC.TYPE_MISMATCH,
                     'Input can only have builtin types',
